@@ -539,6 +539,11 @@ class Interp:
             return _GLOBALS[key]
         _GLOBALS[key] = None
         defs = [st for st in mod.tree.body if isinstance(st, (ast.Assign, ast.AnnAssign)) and any(isinstance(t, ast.Name) and t.id == name_node.id for t in (st.targets if isinstance(st, ast.Assign) else [st.target]))]
+        if not defs:
+            fdefs = [st for st in mod.tree.body if isinstance(st, ast.FunctionDef) and st.name == name_node.id and not st.decorator_list]
+            if len(fdefs) == 1 and not (isinstance(getattr(name_node, '_parent', None), ast.Call) and name_node._parent.func is name_node):
+                _GLOBALS[key] = (True, FuncRef(fdefs[0], False))       # a module-level function used as a value (stored in a table, passed as a callback)
+                return _GLOBALS[key]
         if len(defs) != 1 or defs[0].value is None:
             return None
         for x in ast.walk(mod.tree):
@@ -719,6 +724,8 @@ class Interp:
             env[target.id] = val
             return
         if isinstance(target, (ast.Tuple, ast.List)):
+            if isinstance(val, Record):
+                val = tuple(val.fields.values())
             if isinstance(val, (tuple, list)) and len(val) == len(target.elts):
                 for t, v in zip(target.elts, val):
                     self._assign(t, v, env)
@@ -819,6 +826,15 @@ class Interp:
                     except Unknown:
                         raise
                     if handled is not None:
+                        return [], [e]
+                if isinstance(fn, ast.Attribute) and isinstance(fn.value, ast.Name) and self.depth < 4:
+                    bv_ = e.get(fn.value.id)
+                    if bv_ is None and fn.value.id not in e:
+                        g_ = self._global_const(fn.value)
+                        bv_ = g_[1] if g_ is not None else None
+                    if isinstance(bv_, Record) and (any(isinstance(m_, ast.FunctionDef) and m_.name == fn.attr for m_ in bv_.cls.body) or isinstance(bv_.fields.get(fn.attr), (Lam, FuncRef))):
+                        self._seen_calls.add(id(v))
+                        self.value(v, e)      # a method of a record object called for its effects on its (list) arguments: interpreted in place
                         return [], [e]
                 if isinstance(fn, ast.Name) and isinstance(e.get(fn.id), (FuncRef, Lam, Builtin)) and self.depth < 4:
                     self._seen_calls.add(id(v))
